@@ -223,6 +223,69 @@ pub fn wide_terms() -> Vec<R> {
     out
 }
 
+/// Huge terms - the size dimension far beyond the widths above: every variable-arity constructor with 257, 1024,
+/// 1500 and 4097 components (images with the placeholder first / in the middle / last but one / last), a product of 600
+/// one-element sets and a conjunction of 260 statements (many nodes, little depth), a sequence of 4000 statements
+/// (its text is longer than 65 535 characters) and a 70 000-character name. `max_width` caps the widths (the lexical
+/// parser is quadratic in the number of components).
+pub fn huge_terms(max_width: usize) -> Vec<R> {
+    let mut out = vec![];
+    for n in [257usize, 1024, 1500, 4097] {
+        if n > max_width {
+            continue;
+        }
+        let elems: Vec<R> = (0..n).map(|i| if i % 5 == 4 { R::atom(Tag::IVar, &format!("v{i}")) } else { R::word(&format!("w{i}")) }).collect();
+        for &tag in COMPOUND_TAGS.iter() {
+            match tag.shape() {
+                Shape::Set | Shape::Seq => out.push(R::node(tag, elems.clone())),
+                Shape::Image => {
+                    for idx in [0, n / 2, n - 2, n] {
+                        out.push(R::image(tag, idx, elems.clone()));
+                    }
+                }
+                _ => {}
+            }
+        }
+        // a wide unordered compound as an element of another one
+        out.push(R::node(Tag::SetExt, vec![R::node(Tag::SetInt, elems.clone()), R::word("x")]));
+    }
+    let sets: Vec<R> = (0..600).map(|i| R::node(Tag::SetExt, vec![R::word(&format!("s{i}"))])).collect();
+    out.push(R::node(Tag::Product, sets));
+    let stmts: Vec<R> = (0..260).map(|i| R::pair(Tag::Inh, R::word(&format!("a{i}")), R::word(&format!("b{i}")))).collect();
+    out.push(R::node(Tag::Conj, stmts));
+    if max_width >= 4000 {
+        let many: Vec<R> = (0..4000).map(|i| R::pair(Tag::Inh, R::word(&format!("a{i}")), R::word(&format!("b{i}")))).collect();
+        out.push(R::node(Tag::SeqConj, many));
+        out.push(R::word(&"n".repeat(70_000)));
+        out.push(R::pair(Tag::Inh, R::word(&"甲".repeat(30_000)), R::word("b")));
+    }
+    out
+}
+
+/// wide AND deep: three towers of depth 20 / 45 / 60 side by side in a product, a set and a conjunction (many nested
+/// compounds completed before the next one is entered)
+pub fn side_by_side_towers() -> Vec<R> {
+    let mut out = vec![];
+    for d in [20usize, 45, 60] {
+        for &inner in &[Tag::SetExt, Tag::Product, Tag::Neg, Tag::Conj] {
+            let tower = |leaf: &str| {
+                let mut t = R::word(leaf);
+                for _ in 0..d {
+                    t = R::node(inner, vec![t]);
+                }
+                t
+            };
+            for &outer in &[Tag::Product, Tag::SetInt, Tag::Disj] {
+                out.push(R::node(outer, vec![tower("a"), tower("b"), tower("c")]));
+            }
+            out.push(R::pair(Tag::Sim, tower("a"), tower("b")));
+            out.push(R::pair(Tag::Sim, tower("b"), tower("a")));
+            out.push(R::node(Tag::SetExt, vec![R::pair(Tag::Sim, tower("a"), tower("b")), R::pair(Tag::Sim, tower("b"), tower("a"))]));
+        }
+    }
+    out
+}
+
 /// nested variety: every unordered constructor holding one multi-component unordered compound of
 /// every kind, whose own contents range over all pairs and triples of the pool (the constructor
 /// representatives all share the contents (a, b1), so they cannot vary what an inner set hashes to)
@@ -300,6 +363,11 @@ pub fn class_names() -> Vec<String> {
             v.push(format!("t0{}", "9".repeat(k)));
             v.push(format!("a1b{}", "8".repeat(k)));
         }
+    }
+    // names of 63, 64, 65, 70, 130, 300 characters (a look-ahead window or a fixed buffer ends somewhere)
+    for k in [63usize, 64, 65, 70, 130, 300] {
+        v.push("n".repeat(k));
+        v.push(format!("{}z", "甲".repeat(k - 1)));
     }
     v.push("18446744073709551615".to_string());
     v.push("18446744073709551616".to_string());
@@ -599,6 +667,10 @@ pub fn u_term(f: &F, tier: Tier) -> Vec<R> {
     }
     out.extend(numeric_terms());
     out.extend(reducible(f));
+    // (widths up to 257 only: the lexical parser's cost grows with components x remaining text, and the 4000-statement
+    // sequence / the 70 000-character name of `huge_terms(4097)` are added by the enum-only checks C01, C14, C16 themselves)
+    out.extend(huge_terms(257));
+    out.extend(side_by_side_towers());
     out.extend(name_class_terms());
     out.extend(hash_twin_family(&[Tag::SetExt, Tag::Conj, Tag::IntInt, Tag::Sim, Tag::Inh, Tag::Product]));
     out
